@@ -385,6 +385,9 @@ def _builds(ctx):
     names = dict(default="default", nosimplify="nosimplify", customll="customll", both="nosimplify_customll")
     dirs, errs = {}, {}
     for k, v in names.items():
+        if k == "both" and "did not finish" in errs.get("customll", ""):
+            ctx.note("variant nosimplify_customll not built: the customll build already ran into the time limit")
+            continue
         try:
             dirs[k] = _build(v)
         except B.BuildError as e:
